@@ -30,6 +30,28 @@ class HarnessError(BaseException):
 # --------------------------------------------------------------------------
 
 HASH_MODE = "structural"      # or "decided"
+SECOND_EVERY = int(__import__("os").environ.get("VERIF_CVC5_EVERY", "0") or 0)   # re-decide every Nth final query (and every sat) with cvc5
+_second_counter = [0]
+
+
+def cvc5_check(smt2, timeout_ms=30000):
+    """verdict of cvc5 1.4 (python wheel) on an SMT-LIB2 text: 'sat' | 'unsat' | 'unknown'"""
+    import cvc5
+    slv = cvc5.Solver()
+    slv.setOption("tlimit-per", str(timeout_ms))
+    slv.setLogic("ALL")
+    p = cvc5.InputParser(slv)
+    p.setStringInput(cvc5.InputLanguage.SMT_LIB_2_6, smt2, "q")
+    sm = p.getSymbolManager()
+    res = "unknown"
+    while True:
+        cmd = p.nextCommand()
+        if cmd.isNull():
+            break
+        out = str(cmd.invoke(slv, sm)).strip()
+        if out in ("sat", "unsat", "unknown"):
+            res = out
+    return res
 _TOKEN_BASE = 0x5EED000000
 
 
@@ -52,6 +74,8 @@ class Ctx:
         self.nonlinear = 0
         self.syms = {}           # name -> SymInt
         self.notes = []
+        self.second_n = 0
+        self.second_agree = 0
 
     # ---- inputs -----------------------------------------------------------
     def int(self, name, lo=None, hi=None):
@@ -169,6 +193,18 @@ class Ctx:
             self.solver.add(viol)
             r = self._check()
             m = self.solver.model() if r == "sat" else None
+            if SECOND_EVERY and r in ("sat", "unsat"):
+                _second_counter[0] += 1
+                if r == "sat" or _second_counter[0] % SECOND_EVERY == 0:
+                    try:
+                        r2 = cvc5_check(self.solver.to_smt2())
+                    except Exception as e:    # noqa
+                        r2 = "error:%s" % type(e).__name__
+                    self.second_n += 1
+                    if r2 == r:
+                        self.second_agree += 1
+                    elif r2 in ("sat", "unsat"):
+                        raise Inconclusive("solver disagreement: z3 %s, cvc5 %s" % (r, r2))
         finally:
             self.solver.pop()
         return r, m
@@ -583,9 +619,11 @@ class Stats:
         self.solver_s = 0.0
         self.nonlinear = 0
         self.wall_s = 0.0
+        self.second_n = 0
+        self.second_agree = 0
 
     def as_dict(self):
-        return dict(paths=self.paths, infeasible=self.infeasible, decisions=self.decisions,
+        return dict(second_solver_checks=self.second_n, second_solver_agreements=self.second_agree, paths=self.paths, infeasible=self.infeasible, decisions=self.decisions,
                     feasibility_checks=self.checks, solver_s=round(self.solver_s, 3),
                     nonlinear_products=self.nonlinear, wall_s=round(self.wall_s, 3))
 
@@ -627,6 +665,8 @@ def explore(fn, on_path=None, max_paths=20000, wall=None, timeout_ms=20000):
             st.checks += ctx.nchecks
             st.solver_s += ctx.solver_s
             st.nonlinear += ctx.nonlinear
+            st.second_n += ctx.second_n
+            st.second_agree += ctx.second_agree
             Ctx.cur = None
     st.wall_s = time.time() - t0
     return st
